@@ -213,8 +213,9 @@ def run_render(ctx):
                 ok = False
                 continue
             cs = [c.callee for c in calls_in(db, arm_region(db, t))]
-            if not any("new_debug" in c for c in cs):
-                ok = False
+            reach = lib.reach([c for c in cs if c])
+            if not any("new_debug" in c for c in cs) and not any(x.endswith("::escape_debug") for x in reach):
+                ok = False          # neither {:?} nor an escape_debug-based renderer
         if ok:
             res.ok(key, db.where(), "Int / Float / String are formatted with {:?}")
         else:
